@@ -257,7 +257,7 @@ fn run(ctx: &mut Ctx) {
     let arena = Arena::new(2);
     let st = Arena::new_low(1);
     st.fill(0xEE);
-    let budget = if ctx.quick() { 1 } else { 2 };
+    let budget = if ctx.quick() { 1 } else if ctx.dev_profile() { 2 } else { 3 };
     let bmax = if ctx.quick() { 2 * 64 + 9 } else { 4 * 64 + 9 };
     ctx.bound("deviations", format!("well-formed default (layout 40 or 64, 2 or 3 entries, string table = last entry, exactly fitting) with up to {} deviating fields, each over its whole alphabet: num 0..=5 + EDGE32, entsize 0..=128 + EDGE32, shndx 0..=5 + EDGE32, section byte length 0..={}, raw type of entry 0 / entry 1 over 20 type classes; tag flush against a guard page, fills A/B; string table in a second arena below 2 GiB, flush against a guard page", budget, bmax));
     let mut ns: Vec<u32> = (0..=5).collect();
